@@ -61,6 +61,7 @@ type StreamOpts struct {
 	TxnHeavy       bool // >= 40% of items inside transactions
 	TxnInnerSelect bool // some transactions switch the database in their body
 	SelectHeavy    bool
+	Burst          bool // long runs of plain commands: database switches and transactions are rare (one item in ~300)
 	BigArgs        bool
 	Reserved       bool // include commands on reserved keys / bookkeeping traffic
 	Filters        *FilterSpec
@@ -467,8 +468,12 @@ func GenStream(c *simrt.Chooser, o StreamOpts) *Stream {
 	if o.SelectHeavy {
 		wSel = 25
 	}
+	wCmd := 60
+	if o.Burst {
+		wCmd, wSel, wTxn = 600, 1, 1
+	}
 	for len(st.Items) < n {
-		switch c.Weighted("itemkind", []int{60, wSel, wTxn, wPing, wAck, wSent, wAdmin}) {
+		switch c.Weighted("itemkind", []int{wCmd, wSel, wTxn, wPing, wAck, wSent, wAdmin}) {
 		case 0:
 			nm, a := g.businessCmd()
 			add(KCmd, 0, nm, a...)
